@@ -239,7 +239,7 @@ func c13R2(a *A, cd *codec) {
 				return
 			}
 			n++
-			where := f.Name()
+			where := roleName(f)
 			ok = where == "getValuesFromRow" || where == "getIdentifiesFromRow" || where == "newColumnData" || loopFns[f]
 			a.check(ok, rule, fmt.Sprintf("isempty-store@%s#%d", where, n), w.posOf(st), "absent flag written by the column loops / constructor", "the absent flag is written elsewhere")
 		})
